@@ -290,6 +290,11 @@ func GenPattern(pick func(n int, label string) int, depth int) string {
 		}
 		return s
 	}
+	if pick(6, "parenalt") == 2 {
+		// alternation of parenthesised branches: the whole pattern starts with '(' and ends with ')' although the
+		// parentheses do not enclose it
+		return "(" + branch(depth-1) + ")|(" + branch(depth-1) + ")"
+	}
 	return alt(depth)
 }
 
